@@ -337,6 +337,16 @@ pub fn run(a: &Args) {
 			if sp.sender != Some(sender0.clone()) {
 				rep.violation("C10|api|sender-not-recovered", "decode_slatepack_message did not recover the sender address", json!({"message": msg}));
 			}
+			// the recipient's index given among others, in any position: each recipient key decrypts, whichever
+			// keys were tried before it
+			let mut many: Vec<u32> = (0..4).collect();
+			rng.shuffle(&mut many);
+			rep.eval();
+			match owner::slate_from_slatepack_message(w.wallets[1].inst.clone(), w.wallets[1].m(), msg.clone(), many.clone()) {
+				Ok(d2) if diff_slate(&s, &d2).is_empty() => rep.count("api:recipient-index-among-others-decrypts"),
+				Ok(_) => rep.violation("C10|api|recipient-decodes-different", "slate_from_slatepack_message (several indices) returned a different slate", json!({"message": msg, "indices": many})),
+				Err(e) => rep.violation(&format!("C10|api|recipient-key-not-tried|position={}", many.iter().position(|i| *i == idx).unwrap_or(9)), &format!("the message is encrypted to derivation index {} of this wallet, but slate_from_slatepack_message with indices {:?} fails: {:?}", idx, many, e), json!({"message": msg, "index": idx, "indices": many})),
+			}
 			// other derivation indices of the same wallet, and the sending wallet itself
 			let wrong: Vec<u32> = (0..4).filter(|i| *i != idx).collect();
 			rep.eval();
